@@ -1,5 +1,6 @@
 import PprofVerif.Lemmas.DotEscape
 import PprofVerif.Lemmas.DotEmit
+import PprofVerif.Lemmas.DotDocIds
 import PprofVerif.Lemmas.CallgrindComp
 import PprofVerif.Gen.DotSites
 import PprofVerif.Gen.HtmlSinks
@@ -108,6 +109,74 @@ theorem tag_and_legend_labels_lex (split : Bytes → List Bytes) (name : Bytes) 
   exact ⟨scanQ_of_qsafeB _ (tagLabel_qsafe split name) r, scanQ_of_qsafeB _ (legendLabel_qsafe labels) r⟩
 
 example : tagLabel (fun s => [s.take 2, s.drop 4]) [DQ, BS, BS, 0x6e, DQ] = [BS, DQ, BS, BS, BS, 0x6e, BS, DQ] := by decide
+
+
+/-! ### the document
+
+`Model/DotDoc.lean` mirrors WHICH statements `ComposeDot` writes and with which identifiers:
+`digraph "title" {`, the node defaults, the legend subgraph, per node `N<i>` its statement, its
+tag nodelets `N<i>_<j>` with their edges and the numeric nodelets `N<source>_<k>` below the node
+or a tag nodelet, then the graph edges `N<src> -> N<dst>`, then `}`.  Attribute values are
+abstract: any identifier-like bare value, any quoted body that is safe between quotes (the
+theorems above show the bodies pprof assembles are). -/
+
+/-- **The document model parses** — for every graph (any number of nodes, nodelets, numeric
+nodelets, edges, any attribute lists): lexing and parsing the BYTES of the document give back
+the title, the legend node followed by the node statements in order, and the edge statements. -/
+theorem dot_model_parses (g : G) (hg : g.OK) :
+    parse g.bytes = some ⟨some (unquote g.title), legendNodes g.legend ++ nodesOf g.stmts, edgesOf g.stmts⟩ := by
+  unfold parse G.bytes
+  rw [lexes_doc g.title g.legend g.stmts hg.title hg.legend (G.stmts_ok g hg)]
+  exact parseToks_doc g.title g.legend g.stmts hg.legend (G.stmts_ok g hg)
+
+/-- **Edges reference only declared nodes** — the check `wellFormed` that the harness applies to
+real output (parses, and no edge endpoint lacks a node statement) succeeds on the document of
+every graph whose edges connect nodes of the graph: the identifier scheme `N%d` / `N%d_%d` /
+`N%s_%d` never produces an endpoint without a declaration. -/
+theorem dot_edges_declared (g : G) (hg : g.OK) : wellFormed g.bytes = true := by
+  unfold wellFormed
+  rw [dot_model_parses g hg]
+  simp only [Graph.undeclared, Graph.declared, List.isEmpty_iff, List.filter_eq_nil_iff, List.mem_flatMap]
+  intro i ⟨e, he, hi⟩
+  have hd := G.edges_declared g hg e he
+  have hmem : i ∈ ids g.stmts := by
+    simp only [List.mem_cons, List.not_mem_nil, or_false] at hi
+    rcases hi with rfl | rfl
+    · exact hd.1
+    · exact hd.2
+  simp only [Bool.not_eq_true', Bool.not_eq_false, List.contains_iff_mem, List.map_append, List.mem_append]
+  exact Or.inr (by simpa [ids] using hmem)
+
+-- non-vacuity: a two-node graph with a tag nodelet, a numeric nodelet below it, one edge, a legend
+example : G.OK ⟨escape [DQ], some (escape [BS], []), [⟨[], [⟨0, [], [], [⟨0, [], []⟩]⟩], []⟩, ⟨[], [], []⟩], [⟨1, 0, []⟩]⟩ :=
+  { title := qsafeB_escape _
+    legend := by
+      intro p hp; cases hp
+      exact ⟨qsafeB_escape _, by simp⟩
+    nodes := by
+      intro n hn
+      simp only [List.mem_cons, List.not_mem_nil, or_false] at hn
+      rcases hn with rfl | rfl
+      · refine ⟨(by simp), ?_, (by simp)⟩
+        intro t ht
+        simp only [List.mem_cons, List.not_mem_nil, or_false] at ht
+        subst ht
+        refine ⟨(by simp), (by simp), ?_⟩
+        intro m hm
+        simp only [List.mem_cons, List.not_mem_nil, or_false] at hm
+        subst hm
+        exact ⟨(by simp), (by simp)⟩
+      · exact ⟨(by simp), (by simp), (by simp)⟩
+    edgeAttrs := by
+      intro e he a ha
+      simp only [List.mem_cons, List.not_mem_nil, or_false] at he
+      subst he
+      simp at ha
+    edgeEnds := by
+      intro e he
+      simp only [List.mem_cons, List.not_mem_nil, or_false] at he
+      subst he
+      decide }
 
 /-- What makes a regenerated splice site acceptable: literals, numbers and escaped values
 anywhere; outside quotes nothing else, except the caller-chosen node shape; inside quotes the
